@@ -16,7 +16,36 @@ def build(seed):
     other = pd.DataFrame({"z": pd.array([1.5, 2.5, 3.5], dtype=pd.ArrowDtype(pa.float64()))}, index=pd.Index([10, 20, 30]))
     nf = NestedFrame({"x": np.array([1.0, 2.0, 3.0]), "y": np.array([3, 2, 1])}, index=pd.Index([10, 20, 30]))
     nf = nf.add_nested(flat, "n").add_nested(other, "my nest")
+    # a plain (not nested) struct-of-lists column, as `read_parquet(reject_nesting=...)` leaves it
+    st = pa.StructArray.from_arrays([pa.array([[1, 2], [3], [4, 5]]), pa.array([[1., 2.], [3.], [4., 5.]])], names=["p", "q"])
+    nf["st"] = pd.Series(st, dtype=pd.ArrowDtype(st.type), index=nf.index)
     return nf
+
+
+def _tbl(a, bc):
+    return pd.DataFrame({"a": pd.array(a, dtype=pd.ArrowDtype(pa.float64())), "b c": pd.array(bc, dtype=pd.ArrowDtype(pa.int64()))})
+
+
+def _swap_sizes(f):
+    arr = f["n"].array
+    arr[0] = _tbl([7.0, 8.0, 9.0], [7, 8, 9])     # 2 records -> 3
+    arr[2] = _tbl([6.0], [6])                      # 2 records -> 1 (the total is unchanged)
+
+
+# successful IN-PLACE operations: they change the data; the reference frame gets them too (and nothing else)
+MUT_OPS = {
+    "assign_row_bigger": lambda f: f["n"].array.__setitem__(0, _tbl([7.0, 8.0, 9.0], [7, 8, 9])),
+    "assign_row_smaller_at": lambda f: f.at.__setitem__((30, "n"), _tbl([6.0], [6])),
+    "assign_row_none": lambda f: f["n"].array.__setitem__(1, None),
+    "swap_sizes": _swap_sizes,
+    "field_assign": lambda f: f.__setitem__("n.a", [5.0, 4.0, 3.0, 2.0, 1.0][:int(f["n"].nest.flat_length)]
+                                            + [0.5] * max(0, int(f["n"].nest.flat_length) - 5)),
+    "inplace_query": lambda f: f.query("n.`b c` > 1", inplace=True),
+    "inplace_sort": lambda f: f.sort_values("n.`b c`", inplace=True),
+    "replace_nest_by_base": lambda f: f.__setitem__("my nest", np.array([1, 2, 3])),
+    "cast_struct_to_nested": lambda f: f.__setitem__("st", f["st"].astype(NestedDtype(f["st"].dtype.pyarrow_dtype))
+                                                     if not isinstance(f["st"].dtype, NestedDtype) else f["st"]),
+}
 
 
 def boom(*a, **k):
@@ -78,6 +107,11 @@ PROBES = {
     "sort_values": lambda f: frame_view(f.sort_values("n.`b c`")),
     "dropna": lambda f: frame_view(f.dropna(subset="n.a")),
     "dropna_quoted": lambda f: frame_view(f.dropna(subset="n.`b c`")),
+    "list_lengths": lambda f: [int(v) for v in f["n"].array.list_lengths],
+    "count_nested": lambda f: frame_view(__import__("nested_pandas").utils.count_nested(f, "n")),
+    "nested_columns": lambda f: list(f.nested_columns),
+    "query_st": lambda f: frame_view(f.query("st.p > 1")),
+    "getitem_st": lambda f: flat_vals(f["st.q"]),
     "assign_on_copy": lambda f: (lambda g: (g.__setitem__("n.`b c`", [9, 8, 7, 6, 5]), frame_view(g))[1])(f.copy()),
     "aliases_attr": lambda f: getattr(f, "_aliases", None) is None,
     "data": lambda f: frame_view(f),
@@ -86,13 +120,22 @@ PROBES = {
 }
 
 
+ALL_OPS = {**PREFIX_OPS, **MUT_OPS}
+
+
 def run_history(ctx, names):
     fresh = build(0)
     nf = build(0)
     outcomes = []
     for nm in names:
-        r = call_real(lambda: PREFIX_OPS[nm](nf))
+        r = call_real(lambda: ALL_OPS[nm](nf))
         outcomes.append("err" if "err" in r else "ok")
+        if nm in MUT_OPS:
+            # the reference sees the same data changes, and none of the reads / failures in between
+            r2 = call_real(lambda: MUT_OPS[nm](fresh))
+            if ("err" in r) != ("err" in r2):
+                ctx.case(f"history.mutation.{nm}", {"prefix": list(names)}, {"ok": "err" in r}, None, {"ok": "err" in r2},
+                         features=("mutation", nm), nontrivial=True)
     target_objs = [("same", nf, fresh), ("copy", nf.copy(), fresh.copy())]
     for who, obj, ref in target_objs:
         for pn, pf in PROBES.items():
@@ -108,8 +151,19 @@ def run_history(ctx, names):
 def run_all(ctx):
     rng = ctx.rng
     names = list(PREFIX_OPS)
-    for nm in names:
+    muts = list(MUT_OPS)
+    for nm in names + muts:
         run_history(ctx, [nm])
+    # read (fills whatever is memoised) -> change the data in place -> probe
+    readers = ["query_ok", "sort_ok", "dropna_ok", "reduce_ok", "getitem_quoted", "query_unknown_field", "sort_unknown",
+               "setitem_wrong_length", "getitem_unknown", "eval_quoted_ok"]
+    combos = [(r, m) for r in readers for m in muts]
+    rng.shuffle(combos)
+    for r, m in combos[:ctx.budget(40, len(combos))]:
+        run_history(ctx, [r, m])
+    for _ in range(ctx.budget(15, 300)):
+        k = rng.randint(3, 5)
+        run_history(ctx, [rng.choice(names + muts + muts) for _ in range(k)])
     pairs = list(itertools.product(names, repeat=2))
     rng.shuffle(pairs)
     for p in pairs[:ctx.budget(60, len(pairs))]:
